@@ -1,7 +1,7 @@
 """R-TRAV: traversal completeness of the syntax-directed traits."""
 from .. import audit
 from ..core import RuleResult
-from ..mir import Fn, Flow, op_root, place_fields
+from ..mir import Fn, Flow, op_root, place_fields, ret_param_sources
 
 # trait -> (methods that constitute "the traversal", family = method names that count as the recursive call)
 TRAV_TRAITS = {
@@ -128,21 +128,38 @@ def _is_fam_closure(flow, a, fam_closures):
     return False
 
 
-def _fields_reaching_family(fx, key, tr, family):
-    """field names of self that flow into a call of the traversal family (directly, through an iterator adaptor whose
-    closure performs the call, or by being captured by such a closure)"""
+_REACH_MEMO = {}
+
+
+def _reaching(fx, key, tr, family, depth=0):
+    """(parameter, first field or None) pairs of `key` that flow into a call of the traversal family: directly, through an iterator
+    adaptor whose closure performs the call, by being captured by such a closure, or through a helper of the workspace that
+    hands its own parameter on to the family (followed two levels deep)"""
+    mk = (id(fx), key, tr, tuple(sorted(family)))
+    if mk in _REACH_MEMO:
+        return _REACH_MEMO[mk]
+    _REACH_MEMO[mk] = set()
     fn = Fn(fx.fns[key])
     flow = Flow(fn, extra_pass=lambda t: t.get("callee_name") in STD_PASS and (t.get("callee") or "").startswith(("core::", "alloc::", "std::")))
     fam_closures = _closure_family(fx, key, family)
     reached = set()
 
-    def note(operand):
+    def note(operand, d=0):
         r = op_root(operand)
         if r is None:
             return
         for o in flow.origins(r, tuple(place_fields(operand["pl"]))):
-            if o[0] == "arg" and o[1] == 1 and o[2]:
-                reached.add(o[2][0])
+            if o[0] == "arg":
+                reached.add((o[1], o[2][0] if o[2] else None))
+            elif o[0] == "call" and d < 4:
+                # the value handed on is the result of a call: it stands for what that result derives from - the parameters a
+                # workspace helper builds its result from (`renaming.apply(self.body)`), else the receiver of the call
+                tc = fn.term(o[1])
+                k3 = tc.get("resolved_key") or (tc.get("callee_key") if not tc.get("callee_trait") else None)
+                srcs = ret_param_sources(fx, k3) if k3 in fx.fns else None
+                for pi in (sorted(srcs) if srcs else [1]):
+                    if pi - 1 < len(tc["args"]) and tc["args"][pi - 1].get("k") in ("copy", "move"):
+                        note(tc["args"][pi - 1], d + 1)
 
     for bi, t in fn.calls():
         c = t.get("callee") or ""
@@ -153,12 +170,24 @@ def _fields_reaching_family(fx, key, tr, family):
         if fam or (has_closure and (t.get("callee_name") in ITER_CONSUMERS or in_ws or t.get("callee_name") == "new")):
             for a in t["args"]:
                 note(a)
+            continue
+        k2 = t.get("resolved_key") or (t.get("callee_key") if not t.get("callee_trait") else None)
+        if in_ws and depth < 2 and k2 in fx.fns and k2 != key and "{closure" not in k2:
+            for (pi, _fld) in _reaching(fx, k2, tr, family, depth + 1):
+                if pi - 1 < len(t["args"]):
+                    note(t["args"][pi - 1])
     for bi, si, s in fn.stmts():
         rv = s["rv"]
         if rv["k"] == "agg" and rv.get("closure") in fam_closures:
             for o in rv["ops"]:
                 note(o)
+    # closures of a helper receive its parameters as captures: what they hand to the family counts for the helper
+    _REACH_MEMO[mk] = reached
     return reached
+
+
+def _fields_reaching_family(fx, key, tr, family):
+    return {fld for (pi, fld) in _reaching(fx, key, tr, family) if pi == 1 and fld}
 
 
 def rule_trav(traits=None, name="R-TRAV"):
